@@ -78,12 +78,14 @@ Cause(c, id, subj, yes) ==
   ELSE IF HasName(id, SeqToSet(meta.nonascii)) THEN "non-ascii-name"
   ELSE IF HasName(id, SeqToSet(meta.special)) THEN "special-name"
   ELSE "plain-name"
+\* for a listing: the cause of one of the names that are missing / extra; if those are unremarkable (e.g. a name the
+\* catalog made up), the cause read off the step's subject
 ListCause(c, p, names, subj) ==
-  LET cs == {Cause(c, p \o <<n>>, subj, FALSE) : n \in names} IN
-  IF cs = {} THEN Cause(c, p, subj, FALSE)
-  ELSE IF "delimiter-alias" \in cs THEN "delimiter-alias"
+  LET cs == {Cause(c, p \o <<n>>, subj, FALSE) : n \in names}
+      own == IF subj = <<"?reopen">> THEN "plain-name" ELSE Cause(c, subj, subj, FALSE) IN
+  IF "delimiter-alias" \in cs THEN "delimiter-alias"
   ELSE IF \E x \in cs : x # "plain-name" THEN CHOOSE x \in cs : x # "plain-name"
-  ELSE Cause(c, p, subj, FALSE)
+  ELSE own
 \* the as-built deviation of spec/Namespace.tla that explains a wrong answer of this kind ("none": unexplained)
 DevOf(what, cause) ==
   CASE cause \in {"delimiter-alias", "delimiter-name"} -> "DelimiterNameAccepted"
